@@ -74,6 +74,10 @@ def coq_case(c):
 def impl_obs(c, o):
     if "panic" in o:
         return [-1]
+    if c["mode"] in ("pair", "raw"):
+        # frames of one round grouped by stream (kind, id), per-stream order kept (python's sort is stable)
+        return [[ob[0], sorted(ob[1], key=lambda f: f[0] % 16384), sorted(ob[2], key=lambda f: f[0] % 16384)] + ob[3:]
+                for ob in o["obs"]]
     return o["obs"]
 
 
@@ -660,7 +664,7 @@ def build_cases(rng, tier):
         cases += json.load(open(p))
     cases += gen_header_cases(rng, 0)
     cases += gen_verify_cases(rng, 40 if q else 400)
-    npair, nbig, nraw, nflood, nops = (90, 5, 60, 30, 40) if q else (2200, 300, 1400, 600, 70)
+    npair, nbig, nraw, nflood, nops = (90, 5, 60, 30, 40) if q else (1500, 200, 1000, 400, 70)
     cases += [gen_pair_case(rng, rng.range(10, nops), False) for _ in range(npair)]
     cases += [gen_pair_case(rng, rng.range(10, nops), True) for _ in range(nbig)]
     cases += [gen_raw_case(rng, rng.range(5, nops)) for _ in range(nraw)]
